@@ -107,31 +107,39 @@ def Wr.new (hasTif : Bool) (prLen : Nat) (prt : Prt) : Except Err Wr :=
   else if mp < 1 then .error .write
   else .ok { out := [], tif := if hasTif then some {} else none, prLen := prLen, prt := prt, maxPayloadLen := mp.toNat }
 
-/-- body of `while ofs < len(theLr)` in `writeLr`; fuel = len(theLr) + 1 -/
+/-- the bytes of one physical record as assembled in `myB` by one iteration of the loop in `writeLr`
+(header, payload, trailer) and the trailer object after `prtRecNum()` incremented its counter -/
+def prBytes (w : Wr) (lr : Bytes) (ofs : Nat) : Bytes × Prt :=
+  let payload := (lr.drop ofs).take w.maxPayloadLen
+  let b := u16be (4 + payload.length + w.prt.prtLen)
+  let attr := w.prt.prhAttr
+  let attr := if ofs + w.maxPayloadLen < lr.length then attr ||| (1 <<< 0) else attr
+  let attr := if ofs > 0 then attr ||| (1 <<< 1) else attr
+  let b := b ++ u16be attr
+  let b := b ++ payload
+  let r := w.prt.recNumBytes
+  let b := b ++ r.1
+  let b := b ++ r.2.fileNumBytes
+  let ck := computeCheckSum r.2 b
+  let b := b ++ (if r.2.hasCheck then u16be ck else [])
+  (b, r.2)
+
+/-- `while ofs < len(theLr)` in `writeLr`; fuel = len(theLr) + 1 -/
 def writeLoop : Nat → Wr → Bytes → Nat → Except Err Wr
   | 0, _, _, _ => .error .fuel
   | fuel + 1, w, lr, ofs =>
     if ofs < lr.length then
-      let payload := (lr.drop ofs).take w.maxPayloadLen
-      let b := u16be (4 + payload.length + w.prt.prtLen)
-      let attr := w.prt.prhAttr
-      let attr := if ofs + w.maxPayloadLen < lr.length then attr ||| (1 <<< 0) else attr
-      let attr := if ofs > 0 then attr ||| (1 <<< 1) else attr
-      let b := b ++ u16be attr
-      let b := b ++ payload
-      let (rb, prt) := w.prt.recNumBytes
-      let b := b ++ rb
-      let b := b ++ prt.fileNumBytes
-      let ck := computeCheckSum prt b
-      let b := b ++ (if prt.hasCheck then u16be ck else [])
+      let pb := prBytes w lr ofs
       match w.tif with
       | some t =>
-        match t.write b.length with
+        match t.write pb.1.length with
         | .error e => .error e
         | .ok (m, t') =>
-          writeLoop fuel { w with out := w.out ++ m ++ b, tif := some t', prt := prt } lr (ofs + payload.length)
+          writeLoop fuel { w with out := w.out ++ m ++ pb.1, tif := some t', prt := pb.2 } lr
+            (ofs + ((lr.drop ofs).take w.maxPayloadLen).length)
       | none =>
-        writeLoop fuel { w with out := w.out ++ b, prt := prt } lr (ofs + payload.length)
+        writeLoop fuel { w with out := w.out ++ pb.1, prt := pb.2 } lr
+          (ofs + ((lr.drop ofs).take w.maxPayloadLen).length)
     else .ok w
 
 /-- `writeLr`: returns the tell of the start of the record and the new writer -/
